@@ -219,7 +219,11 @@ func (c *Ctx) credOfBool(b ssa.Value, pol bool, depth int) []Cred {
 		for i, e := range v.Edges {
 			if cb, ok := ConstBool(e); ok {
 				if cb != pol {
-					excluded = true
+					// the flag separates outcomes only if this "other" assignment is
+					// not itself made on a verified path
+					if len(c.credsAtEdge(v.Block().Preds[i], v.Block())) == 0 {
+						excluded = true
+					}
 					continue // this operand cannot produce the tested value
 				}
 				// a constant that produces the tested value: the edge itself must be verified
@@ -344,7 +348,9 @@ func (c *Ctx) credOfIntPhi(phi *ssa.Phi, op token.Token, n int64, depth int) []C
 	excluded := false
 	for i, e := range phi.Edges {
 		if k, ok := ConstInt(e); ok && !cmpHolds(k, op, n) {
-			excluded = true
+			if len(c.credsAtEdge(phi.Block().Preds[i], phi.Block())) == 0 {
+				excluded = true
+			}
 			continue
 		}
 		// nested phi of the same shape (loop-carried): recurse
@@ -404,58 +410,85 @@ func (c *Ctx) credOfToken(res, tok ssa.Value, depth int) []Cred {
 	}
 	var all []Cred
 	matched := false
+	// one alternative = one value the result may take, with the facts under which it is taken
+	type alt struct {
+		v  ssa.Value
+		fs func() []Cred
+	}
+	var alts []alt
+	var expand func(v ssa.Value, creds func() []Cred, d int)
+	expand = func(v ssa.Value, creds func() []Cred, d int) {
+		if phi, ok := v.(*ssa.Phi); ok && d < 4 {
+			for i, e := range phi.Edges {
+				i := i
+				expand(e, func() []Cred {
+					cs := c.credsAtEdge(phi.Block().Preds[i], phi.Block())
+					if len(cs) == 0 {
+						cs = creds()
+					}
+					return cs
+				}, d+1)
+			}
+			return
+		}
+		alts = append(alts, alt{v, creds})
+	}
 	for _, b := range f.Blocks {
 		for _, in := range b.Instrs {
 			ret, isRet := in.(*ssa.Return)
 			if !isRet || idx >= len(ret.Results) {
 				continue
 			}
-			v := ret.Results[idx]
-			if _, isC := v.(*ssa.Const); isC {
+			ret2 := ret
+			expand(ret.Results[idx], func() []Cred { return c.credsOfFacts(FactsAtInstr(ret2)) }, 0)
+		}
+	}
+	for _, a := range alts {
+		v := a.v
+		if _, isC := v.(*ssa.Const); isC {
+			continue
+		}
+		if g := tokenKey(v); g != nil {
+			if g != want {
 				continue
 			}
-			if g := tokenKey(v); g != nil {
-				if g != want {
-					continue
-				}
-				matched = true
-				cs := c.credsOfFacts(FactsAtInstr(ret))
-				if len(cs) == 0 {
-					return nil
-				}
-				all = append(all, cs...)
-				continue
+			matched = true
+			cs := a.fs()
+			if len(cs) == 0 {
+				return nil
 			}
-			// Localizef(<phi of keys>): the success key may be selected only over verified edges
-			if lc, li := CallOf(v); lc != nil && li == 0 && Callee(lc) == fnLocalizef {
-				if phi, ok := Arg(lc, 2).(*ssa.Phi); ok {
-					okPhi := true
-					for i, e := range phi.Edges {
-						g := loadOfGlobal(e)
-						if g == nil {
-							okPhi = false
-							break
-						}
-						if g != want {
-							continue
-						}
-						matched = true
-						cs := c.credsAtEdge(phi.Block().Preds[i], phi.Block())
-						if len(cs) == 0 {
-							cs = c.credsOfFacts(FactsAtInstr(ret))
-						}
-						if len(cs) == 0 {
-							return nil
-						}
-						all = append(all, cs...)
+			all = append(all, cs...)
+			continue
+		}
+		// Localizef(<phi of keys>): the success key may be selected only over verified edges
+		if lc, li := CallOf(v); lc != nil && li == 0 && Callee(lc) == fnLocalizef {
+			if phi, ok := Arg(lc, 2).(*ssa.Phi); ok {
+				okPhi := true
+				for i, e := range phi.Edges {
+					g := loadOfGlobal(e)
+					if g == nil {
+						okPhi = false
+						break
 					}
-					if okPhi {
+					if g != want {
 						continue
 					}
+					matched = true
+					cs := c.credsAtEdge(phi.Block().Preds[i], phi.Block())
+					if len(cs) == 0 {
+						cs = a.fs()
+					}
+					if len(cs) == 0 {
+						return nil
+					}
+					all = append(all, cs...)
+				}
+				if okPhi {
+					continue
 				}
 			}
-			return nil // a return value the rule does not understand
 		}
+		return nil // a result value the rule does not understand
 	}
 	if !matched {
 		return nil
